@@ -331,6 +331,29 @@ pub fn replay_cmd(file: &Path) -> i32 {
     if j.get("case").is_some_and(|c| c.gs("kind") == "trace") {
         return crate::trace::replay_trace(&j, file);
     }
+    if j.gs("expect") == "command" {
+        // memory-checker tier (ASan / Miri): the replay is the recorded command line
+        let cmd = j.gs("reproduce");
+        println!("running: {cmd}");
+        let out = Command::new("sh").arg("-c").arg(cmd).output();
+        return match out {
+            Ok(o) => {
+                let txt = format!("{}{}", String::from_utf8_lossy(&o.stdout), String::from_utf8_lossy(&o.stderr));
+                if txt.contains("Undefined Behavior") || txt.contains("ERROR: AddressSanitizer") {
+                    println!("VIOLATION property={} replay={}", j.gs("property"), file.display());
+                    println!("reproduced: the memory checker reported an error again");
+                    1
+                } else {
+                    println!("not reproduced (exit status {})", o.status);
+                    0
+                }
+            }
+            Err(e) => {
+                eprintln!("{e}");
+                2
+            }
+        };
+    }
     if j.gs("expect") == "signal" {
         // the case is expected to kill the process: run it in a child
         let st = Command::new(std::env::current_exe().unwrap())
